@@ -91,6 +91,15 @@ def main(argv):
         if verdict != 'VIOLATION':
             bad += 1
     sh(['git', 'checkout', '-q', '--', '.'], cwd=repo)
+    if only:
+        # partial re-run: merge into the record of the last full run
+        try:
+            prev = json.load(open(os.path.join(VERIF, 'seeded', 'REGRESSION.json')))['results']
+        except (OSError, ValueError, KeyError):
+            prev = []
+        done = set(r['seed'] for r in results)
+        results = sorted([r for r in prev if r['seed'] not in done] + results, key=lambda r: r['seed'])
+        bad = sum(1 for r in results if r['verdict'] != 'VIOLATION')
     with open(os.path.join(VERIF, 'seeded', 'REGRESSION.json'), 'w') as fh:
         json.dump({'repo_head': sh(['git', 'rev-parse', 'HEAD'], cwd=REPO)[1].strip(), 'tier': tier, 'seeds': len(results),
                    'reported': len(results) - bad, 'results': results}, fh, indent=1)
